@@ -274,4 +274,34 @@ def r8_lists(ctx):
         o["rule"] = "R8"
 
 
-RULES = [("R1", r1_inverse), ("R2", r2_sets), ("R3", r3_delimiter), ("R4", r4_split_before_unescape), ("R5", r5_keys), ("R6", r6_quote_target), ("R7", r7_bool_table), ("R8", r8_lists)]
+NUMS = ("i8", "i16", "i32", "i64", "i128", "u8", "u16", "u32", "u64", "u128", "f32", "f64")
+
+
+def r9_numeric_table(ctx):
+    """every numeric entry point of the deserializers parses and visits its own type: deserialize_T may call
+    visit_T (or give the text to the visitor when it does not parse) and may forward only to deserialize_T"""
+    import re
+    for cfg, F in ctx.facts.items():
+        n = 0
+        for b in F.bodies:
+            m = re.search(r"deserialize_(%s)$" % "|".join(NUMS), strip_generics(b.path))
+            if not m or not b.loc(b.j["span"]).startswith("src/de/"):
+                continue
+            ty = m.group(1)
+            bad = []
+            for _, t in b.calls():
+                d = callee_of(t)[0] or ""
+                last = d.split("::")[-1]
+                if last.startswith("visit_") and last not in ("visit_" + ty, "visit_str", "visit_string", "visit_borrowed_str"):
+                    bad.append(last)
+                mm = re.match(r"deserialize_(%s)$" % "|".join(NUMS), last)
+                if mm and mm.group(1) != ty:
+                    bad.append(last)
+            n += 1
+            if bad:
+                ctx.ob("R9", "%s" % sym.short(strip_generics(b.path)), False, "deserialize_%s hands the value to %s: another type's range and syntax" % (ty, sorted(set(bad))), loc=b.loc(b.j["span"]), config=cfg)
+        ctx.ob("R9", "numeric-table", True, "numeric deserialize_* entry points examined: %d" % n, config=cfg)
+        ctx.floor("R9", "numeric deserialize_* entry points", n, 36, config=cfg)
+
+
+RULES = [("R1", r1_inverse), ("R2", r2_sets), ("R3", r3_delimiter), ("R4", r4_split_before_unescape), ("R5", r5_keys), ("R6", r6_quote_target), ("R7", r7_bool_table), ("R8", r8_lists), ("R9", r9_numeric_table)]
